@@ -587,7 +587,16 @@ impl<F: std::future::Future> std::future::Future for Stepper<F> {
 fn run_mt(p: &Plan, log: Arc<Mutex<Log>>) -> (bool, u64) {
     let n = p.callers.len();
     let sched = crate::sched::Sched::new(n, p.schedule_seed, (p.schedule_seed % 4) as u32, std::env::var("XSIM_TRACE").is_ok());
-    let group: Arc<Group<u64, String>> = Arc::new(Group::new());
+    // the group is built either outside any runtime or inside a start-up runtime that is gone by the time it is used
+    // (a group must not be tied to the runtime it was created on)
+    let group: Arc<Group<u64, String>> = if p.schedule_seed % 2 == 0 {
+        Arc::new(Group::new())
+    } else {
+        let rt0 = tokio::runtime::Builder::new_current_thread().enable_all().build().unwrap();
+        let g = rt0.block_on(async { Arc::new(Group::new()) });
+        drop(rt0);
+        g
+    };
     let mut hs = Vec::new();
     for (i, c) in p.callers.iter().cloned().enumerate() {
         let sched = sched.clone();
